@@ -176,7 +176,8 @@ def writesOf : Mut → List Field
   | .trajAppendState => [.predTrajectory]
   | .obsSetInitialState => [.obsInitialState]
   | .obsSetShape => []                            -- the shape is immutable after construction (warning only, obstacle.py:224-236)
-  | .obsTranslateRotate => [.obsInitialState, .predTrajectory]
+  -- a dynamic obstacle also moves its state history (obstacle.py:666, fix 6df6dd6) — found by the translator tie T11; no cache reads it
+  | .obsTranslateRotate => [.obsInitialState, .predTrajectory, .obsHistory]
   | .obsSetPrediction => [.obsPrediction, .predShape, .predTrajectory, .predAssignment]
   | .obsUpdateInitialState => [.obsInitialState, .obsPrediction, .obsHistory, .predShape, .predTrajectory, .predAssignment]
   | .lanTranslateRotate => [.lanVertices, .lanFootprint]
